@@ -202,6 +202,45 @@ def correspond(ctx, scale):
                 failures.append({'key': f'{type(q).__name__}:dropout:output-shape', 'what': f'{type(q).__name__} with quantize_dropout: output shape {tuple(ret[0].shape)}', 'case': dict(cls=type(q).__name__, seed=seed)})
             if int(idx.min()) < -1:
                 failures.append({'key': f'{type(q).__name__}:dropout:index-range', 'what': f'{type(q).__name__} with quantize_dropout: index below -1', 'case': dict(cls=type(q).__name__, seed=seed)})
+    # padded entries: -1 EXACTLY at the padded positions, [0, K) at the valid ones, same shapes and dtypes - with mask= and lens=,
+    # on long-lived modules whose `lens` / `mask` argument is one preallocated buffer refilled in place between calls
+    from vector_quantize_pytorch import VectorQuantize
+    pad_mk = [('vq', lambda: VectorQuantize(dim=4, codebook_size=7), 4, 7, 0, True),
+              ('vq-heads', lambda: VectorQuantize(dim=4, codebook_size=5, heads=2, codebook_dim=2), 4, 5, 1, True),
+              ('vq-heads-sep-cosine', lambda: VectorQuantize(dim=4, codebook_size=5, heads=2, codebook_dim=2, separate_codebook_per_head=True, use_cosine_sim=True), 4, 5, 1, True),
+              ('rvq', lambda: ResidualVQ(dim=3, num_quantizers=3, codebook_size=6), 3, 6, 1, False),
+              ('grvq', lambda: GroupedResidualVQ(dim=4, groups=2, num_quantizers=2, codebook_size=5), 4, 5, 2, False)]
+    for pname, mk, dim, K, extra_axes, has_lens in pad_mk:
+        q = mk()
+        b, n = 3, 6
+        lens_buf = torch.zeros(b, dtype=torch.long)
+        mask_buf = torch.zeros(b, n, dtype=torch.bool)
+        for step in range(6):
+            q.train(step % 2 == 0)
+            lens_now = torch.tensor([_r.Random(1000 * step + i + len(pname)).randint(1, n) for i in range(b)])
+            lens_buf.copy_(lens_now)
+            mask_buf.copy_(torch.arange(n)[None, :] < lens_now[:, None])
+            use_lens = has_lens and step % 3 != 2
+            x = torch.randn(b, n, dim)
+            ev += 1
+            dist['padded'] = dist.get('padded', 0) + 1
+            try:
+                ret = q(x, **({'lens': lens_buf} if use_lens else {'mask': mask_buf}))
+            except Exception as ex:
+                failures.append({'key': f'{pname}:padded:exception', 'what': f'{pname} step {step} ({"lens" if use_lens else "mask"}): {ex!r}', 'case': dict(name=pname, step=step)})
+                break
+            out, idx = ret[0], ret[1]
+            valid = torch.arange(n)[None, :] < lens_now[:, None]
+            vm = valid if pname != 'grvq' else valid[None]
+            vm = vm.reshape(*vm.shape, *([1] * (idx.ndim - vm.ndim))).expand_as(idx)
+            info = f'{pname} step {step} ({"lens" if use_lens else "mask"} buffer refilled in place, lens={lens_now.tolist()})'
+            if tuple(out.shape) != tuple(x.shape) or idx.dtype not in (torch.int32, torch.int64):
+                failures.append({'key': f'{pname}:padded:shape-dtype', 'what': f'{info}: output shape {tuple(out.shape)} / index dtype {idx.dtype}', 'case': dict(name=pname, step=step)})
+                continue
+            if not bool((idx[~vm] == -1).all()):
+                failures.append({'key': f'{pname}:padded:not-minus-one', 'what': f'{info}: a padded entry carries an index other than -1', 'case': dict(name=pname, step=step)})
+            if not bool(((idx[vm] >= 0) & (idx[vm] < K)).all()):
+                failures.append({'key': f'{pname}:padded:valid-out-of-range', 'what': f'{info}: a valid entry carries an index outside [0, {K}) (min {int(idx[vm].min())})', 'case': dict(name=pname, step=step)})
     bad, broken = core.run_cases(ctx, 'c13', HEADER, cases, per_file=400)
     for name, out in broken:
         failures.append({'key': f'coq-eval:{name}', 'what': 'case file did not evaluate: ' + out, 'case': {'file': name}})
@@ -210,7 +249,7 @@ def correspond(ctx, scale):
         failures.append({'key': f'{m["name"]}:index-shape', 'what': f'{m["name"]}({m["kw"]}) input {m["shape"]}: indices have shape {m["observed"]}, not the documented one', 'case': m})
     return {'evaluations': ev, 'distinct_nontrivial': nt,
             'rule': 'cross product of constructor options x accepted layouts x extents incl. batch 1, one token, dim 1, codebook_dim 1, one code, heads = dim, one layer; train and eval; requires_grad on/off: '
-                    'output shape = input shape, index shape = the documented one computed by the Coq model, integer dtype, range [0, K), loss shape; non-trivial = a degenerate extent is present',
+                    'output shape = input shape, index shape = the documented one computed by the Coq model, integer dtype, range [0, K), loss shape; mask= / lens= buffers refilled in place on long-lived modules: -1 exactly at padded entries; non-trivial = a degenerate extent is present',
             'samples': samples, 'failures': failures, 'distribution': dist}
 
 
